@@ -267,14 +267,7 @@ class Lexer:
             if c == q:
                 break
         # ud-suffix / ObjC nothing
-        c = self.cur()
-        if c == "_" and self.lang in ("CPP", "OC+"):     # user-defined literal suffix (_x only: "%"PRIx64 stays two tokens)
-            while True:
-                c = self.cur()
-                if c and is_idchar(c):
-                    out.append(self.adv())
-                else:
-                    break
+        # a user-defined-literal suffix is left as its own token: 'operator "" _x' and 'operator ""_x' are the same declaration
         self.emit(kind, "".join(out), start, line)
 
     def verbatim(self, start, line, prefix):
@@ -346,6 +339,10 @@ class Lexer:
                 break
         w = "".join(out)
         c = self.cur()
+        if self.lang in ("JAVA", "CS"):
+            self.emit("tok", w, start, line)      # no encoding prefixes in these languages
+            self.pp_name = None
+            return
         if c == '"' and (w in ("L", "u", "U", "u8") or (self.lang in ("CPP", "OC+") and w in ("R", "LR", "uR", "UR", "u8R"))):
             if w.endswith("R"):
                 if self.raw_string(start, line, w):
